@@ -178,6 +178,8 @@ class Hist:
         self.drv = drv
         self.objs = []      # implementation objects
         self.base = []      # rows before the first scaling since the last overriding one (np.ndarray) or None
+        self.token = []     # identifies the affine map that leads from `base` to the current samples (fresh per scaling)
+        self.ntok = 0
         self.taint = []     # attributes were corrupted by an already reported interference
         self.case = {"init": [], "ops": []}
         self.ok = True
@@ -205,6 +207,7 @@ class Hist:
         self.objs.append(ds)
         self.base.append(base)
         self.taint.append(taint)
+        self.token.append(None)
 
     def new_set(self, rows, labels):
         self.case["init"].append({"rows": [[frac_str(x) for x in r] for r in rows], "labels": list(labels)})
@@ -297,6 +300,8 @@ class Hist:
         if first_path:
             self.base[t] = np.array(bt["rows"], dtype=float)
             self.taint[t] = False
+        self.ntok += 1
+        self.token[t] = self.ntok
         return at
 
     def op_scale_range(self, op, before):
@@ -372,6 +377,7 @@ class Hist:
         if bad:
             self.viol("revert-restores", {"dim": bt["dim"]}, {"failed": str(bad)[:600]})
         self.base[t] = None
+        self.token[t] = None
         self.taint[t] = False
 
     def moving_common(self, name, t, before, after):
@@ -462,6 +468,7 @@ class Hist:
                           {"parent": str(attrs_of(bt)), "derived": str(attrs_of(after[k]))})
             self.base[k] = None if self.base[t] is None else self.base[t][idx]
             self.taint[k] = self.taint[t]
+            self.token[k] = self.token[t]
 
     def split_generic(self, name, op, before, call, line_of, rows_idx_of):
         t = op["t"]
@@ -655,8 +662,14 @@ class Hist:
         same = self.concat_oracle(name, ids, before, after[where] if exc is None else None, exc, where is not None and where < n0)
         if exc is None and where == n0:
             part = self.concat_parts(ids, before) or []
-            bs = [self.base[k] for k in part if len(before[k]["rows"]) > 0]
-            self.base[n0] = np.concatenate(bs, axis=0) if bs and same and all(b is not None for b in bs) else None
+            ne = [k for k in part if len(before[k]["rows"]) > 0]
+            bs = [self.base[k] for k in ne]
+            # the snapshots can be joined only if the operands are images under ONE affine map (same scaling history);
+            # equal range and factor do not imply that (the original minima may differ)
+            one_map = same and bs and all(b is not None for b in bs) and len(set(self.token[k] for k in ne)) == 1 \
+                and part and self.token[part[0]] == self.token[ne[0]]
+            self.base[n0] = np.concatenate(bs, axis=0) if one_map else None
+            self.token[n0] = self.token[ne[0]] if one_map else None
             self.taint[n0] = any(self.taint[k] for k in part) or not same
 
     def op_concatenate(self, op, before):
@@ -685,9 +698,12 @@ class Hist:
         if ret != model:
             # equal in exact arithmetic but not in floating point (or vice versa): not a disagreement
             a, b = before[i], before[j]
-            fa = [x for o in (a["range"], a["fac"]) if o for v in o[1:] for x in (v if isinstance(v, list) else [v])]
-            fb = [x for o in (b["range"], b["fac"]) if o for v in o[1:] for x in (v if isinstance(v, list) else [v])]
-            if len(fa) == len(fb) and any(x != y and close(x, y) for x, y in zip(fa, fb)):
+            prs = []
+            for fa, fb in ((a["range"], b["range"]), (a["fac"], b["fac"])):
+                if fa is not None and fb is not None and fa[0] == fb[0]:
+                    for va, vb in zip(fa[1:], fb[1:]):
+                        prs += list(zip(va, vb)) if isinstance(va, list) else [(va, vb)]
+            if any(x != y and close(x, y) for x, y in prs):
                 self.ctx.count("skipped_float_ambiguous_same_scaling")
                 return
         self.finish_op("same_scaling", before, set(), ret, model)
